@@ -15,7 +15,7 @@ import falcon.util.misc as misc  # noqa: E402
 import falcon.util.uri as U  # noqa: E402
 
 import engine.rt as _rt  # noqa: E402
-from engine.rt import fail  # noqa: E402
+from engine.rt import pick, fail  # noqa: E402
 from harness.c10 import REAL_TABLE, STUB_TABLE, _encoders, ref_decode  # noqa: E402
 
 PROPERTY = 'C08'
@@ -449,6 +449,42 @@ LONG_PATTERNS = [
 ]
 
 
+DATE_QS = ['', 'since=', 'since=2020-02-03', 'since=x', 'since=2020-02-03&since=', 'since=&since=2020-02-03', 'since=2020-02-03T04:05:06Z',
+           'since=2020-13-01', 'other=1', 'since=2020-02-03T04:05:06%2B0100', 'since=2020-02-03,2021-01-01']
+
+
+def date_case(asgi, qi, kb, csv, required, use_default, which):
+    """get_param_as_date / get_param_as_datetime against the reference conversion (strptime on the last occurrence)."""
+    import datetime as _dt
+    qs = DATE_QS[qi]
+    req = _mkreq(asgi, qs, kb, csv)
+    ref = dict((k, v) for k, v in ref_parse(qs, kb, csv))
+    fmt = '%Y-%m-%d' if which == 0 else '%Y-%m-%dT%H:%M:%S%z'
+    default = (_dt.date(1999, 1, 1) if which == 0 else _dt.datetime(1999, 1, 1)) if use_default else None
+    if 'since' not in ref or ref['since'] == []:
+        exp = ('missing',) if required else ('ok', default)
+    else:
+        last = ref['since'][-1] if isinstance(ref['since'], list) else ref['since']
+        try:
+            d = _dt.datetime.strptime(last, fmt)
+            exp = ('ok', d.date() if which == 0 else d)
+        except ValueError:
+            exp = ('invalid',)
+    try:
+        if which == 0:
+            got = ('ok', req.get_param_as_date('since', required=required, default=default))
+        else:
+            got = ('ok', req.get_param_as_datetime('since', required=required, default=default))
+    except falcon.HTTPMissingParam:
+        got = ('missing',)
+    except falcon.HTTPInvalidParam:
+        got = ('invalid',)
+    if got != exp:
+        return fail(lambda: '%s(%r) on %r (keep_blank=%r, csv=%r, required=%r, default=%r) -> %r, reference conversion %r' % (
+            ['get_param_as_date', 'get_param_as_datetime'][which], 'since', qs, kb, csv, required, default, got, exp))
+    return 1
+
+
 def _getter_part(name, args, pre, call, timeout, bounds):
     src = '''
 def h(%s) -> int:
@@ -474,6 +510,14 @@ def partitions(tier, seed):
     for asgi in (0, 1):
         P.extend(_group('params_%s' % ('asgi' if asgi else 'wsgi'), sel, 150 if q else 400, call='req_params_case',
                         extra='%d, ' % asgi, per=2 if q else 1))
+    for asgi in (0, 1):
+        P.append(_getter_part(
+            'date_getters_%s' % ('asgi' if asgi else 'wsgi'), 'qi: int, kb: bool, csv: bool, required: bool, use_default: bool, which: int',
+            ['0 <= qi < %d' % len(DATE_QS), '0 <= which <= 1'],
+            'date_case(%d, pick(qi, 0, %d), bool(pick(int(kb), 0, 1)), bool(pick(int(csv), 0, 1)), bool(pick(int(required), 0, 1)), '
+            'bool(pick(int(use_default), 0, 1)), pick(which, 0, 1))' % (asgi, len(DATE_QS) - 1), 150,
+            'get_param_as_date / get_param_as_datetime on %d query strings (absent, blank, valid, invalid, repeated with a blank occurrence, '
+            'CSV) x keep_blank x csv x required x default: finite table through the solver (strptime realizes its input)' % len(DATE_QS)))
     for asgi in (0, 1):
         tag = 'asgi' if asgi else 'wsgi'
         P.append(_getter_part(
